@@ -404,6 +404,7 @@ func runFed(cfg *runCfg, prop string) error {
 				}
 			}
 			opVals := q.ValsFor(one.OpIndex)
+			cfg.Crumb("request", &one)
 			obs := fedRun(fed, q.Text, opName, opVals)
 			for _, cl := range obs.Calls {
 				if cl.Fault != "" {
